@@ -135,7 +135,7 @@ fn run_routes(
         if !sc.wants(route) {
             continue;
         }
-        let is_v = *route == R7A || *route == R7B;
+        let is_v = *route == R7A || *route == R7B || *route == R7C;
         let t = if is_v {
             match vtext {
                 Some(t) => t,
@@ -287,7 +287,7 @@ fn exec_a(sc: &Scenario, verbose: bool, out: &mut RunOut) {
                 Ok(Some(t)) => t,
                 _ => continue,
             };
-            for route in [R7A, R7B] {
+            for route in [R7A, R7B, R7C] {
                 if !sc.wants(route) {
                     continue;
                 }
